@@ -61,8 +61,32 @@ def cases(tier, rng):
     # offsets and code points must still be counted on the text, whatever its internal shape
     for _ in range(60 if tier == "quick" else 600):
         t = "".join(rng.choice(ALPHA + ["é", "漢", "😀", "x", "y"]) for _ in range(rng.randrange(40, 140)))
-        c = S.JCat(t)
+        c = S.JCat(t) if _ % 2 == 0 else S.JCat.shaped(t, rng)
         L = len(t)
+        # a second text of the same length that differs from the first in one character, held as a rope of another shape:
+        # every two-string function must decide on the texts, not on the pieces
+        j = rng.randrange(L)
+        t2 = t[:j] + ("q" if t[j] != "q" else "r") + t[j + 1:]
+        c2, c3 = S.JCat.shaped(t2, rng), S.JCat.shaped(t, rng)
+        for other in (c2, c3):
+            out.append(("equalsIgnoreCase", [c, other]))
+            out.append(("startsWith", [c, other]))
+            out.append(("endsWith", [c, other]))
+            out.append(("findSubstr", [other, c]))
+            out.append(("strReplace", [c, other, "Z"]))
+            out.append(("split", [c, other]))
+            out.append(("stripChars", [c, other]))
+        out.append(("startsWith", [c, S.JCat.shaped(t[:L - 1], rng)]))
+        out.append(("endsWith", [c, S.JCat.shaped(t[1:], rng)]))
+        out.append(("splitLimit", [c, t[L // 3:L // 3 + 1], float(rng.randrange(-1, 4))]))
+        out.append(("splitLimitR", [c, t[L // 3:L // 3 + 1], float(rng.randrange(-1, 4))]))
+        out.append(("lstripChars", [c, S.JCat.shaped(t[:L // 2], rng)]))
+        out.append(("rstripChars", [c, S.JCat.shaped(t[L // 2:], rng)]))
+        out.append(("base64", [c]))
+        out.append(("sha256", [c2]))
+        out.append(("asciiLower", [c2]))
+        out.append(("escapeStringBash", [c2]))
+        out.append(("parseJson", [S.JCat.shaped(json.dumps({"k": t, "v": [1, t2]}), rng)]))
         out.append(("length", [c]))
         out.append(("stringChars", [c]))
         out.append(("substr", [c, float(rng.randrange(0, L)), float(rng.randrange(0, 20))]))
